@@ -25,6 +25,7 @@ LEAN_HELPERS = ['MV.Lemmas.Parse', 'MV.Lemmas.ImportNote', 'MV.Lemmas.ImportLoop
                 'MV.Model.Basic', 'MV.Model.Types']
 DRIVERS = ['C14']
 GEN = ['Tables', 'Library']
+SRC_TIE = ['SrcOps']   # py2lean source image of Chord.parse proved equal to the model (MV/Props/TieOps.lean)
 RULE = ('parse: every mode x degree with random tonic/octaves x all pitches -60..67 (+ random far pitches); '
         'import: 1-4 bars (equal or mixed lengths 2, 3, 4, 3/2, 5/4), 1-4 monophonic voices on 1-2 tracks, notes on '
         'grids 1/1..1/8 (and /3, /5, /7), gaps, notes crossing 1-3 bar lines, silent bars, silent voices; plus a '
@@ -487,6 +488,9 @@ def correspondence(ctx):
             continue        # drum parts are converted by Chord.__call__ (outside the model): pvoice covers is_drum
         cases.append(import_case(inp))
     ctx.compare('import-malformed', 'C14', cases)
+    # kernel-level streams of the source tie (DESIGN §9.6)
+    import srctie
+    srctie.run(ctx, SRC_TIE)
 
 # ----------------------------------------------------------------------------- oracle
 
